@@ -363,9 +363,27 @@ def _rw(t, rules, gt, parent, slot):
     l, ll = _rw(t["l"], rules, gt["l"], t, "l")
     r, _ = _rw(t["r"], rules, gt["r"], t, "r")
     ll = left_loose(t["l"], gt["l"], l, ll, op, parent, slot)
+    if ll and op == "**" and t["l"]["k"] == "un" and not gt["l"].get("sl"):
+        # +X ** r with X = p*q, p/q or p**q written bare: ** takes X's last primary
+        return un(l["op"], _attach_pow(l["x"], t["l"]["x"], r)), True
     if ll and op in MULPOW:
         return un(l["op"], bn(op, l["x"], r)), True
     return bn(op, l, r), False
+
+
+def _attach_pow(x, xraw, r):
+    '''Tree denoted by the text `X ** r` when X (rewritten x, original xraw) is
+    written without parentheses.'''
+    if x["k"] == "bin" and xraw["k"] == "bin" and x["op"] == xraw["op"]:
+        if x["op"] in ("*", "/"):
+            last, lraw = x["r"], xraw["r"]
+            if last["k"] == "bin" and lraw["k"] == "bin" and last["op"] == "**" \
+                    and lraw["op"] == "**":
+                return bn(x["op"], x["l"], bn("**", last["l"], bn("**", last["r"], r)))
+            return bn(x["op"], x["l"], bn("**", last, r))
+        if x["op"] == "**":
+            return bn("**", x["l"], bn("**", x["r"], r))
+    return bn("**", x, r)
 
 
 RULES = ("unary-sign-left-of-mul", "pow-left-nested", "unary-plus-left-of-pow",
@@ -577,6 +595,12 @@ def run(tier):
     cov["distinct_nontrivial"] = nontrivial
     cov["reader_refused"] = refused
     cov["psyir_eq_false_but_projection_equal"] = peq_div
+    for fid, rec in sorted(out.known_examples.items()):      # one witness per finding
+        cov["samples"].append({"known_finding": fid, "clause": rec["clause"],
+                               "expr": rec["case"]["expr"],
+                               "written": rec["case"]["written"],
+                               "denotes": rec["detail"].get("parsed_text")
+                               or rec["detail"]["parsed"]})
     cov["rule"] = ("every well-typed tree of a family is one case (distinct by "
                    "construction); non-trivial = the tree has at least one operator, "
                    "call or subscripted/structure access; divergences = property "
